@@ -7,7 +7,7 @@ from .. import mutrules as M
 from ..cfg import CFG
 from ..codecs import Codecs
 from ..container import Container
-from ..index import walk_no_nested
+from ..index import is_self_attr, walk_no_nested
 from ..layout import Field, Raw, walk_terms
 from ..reference_layout import HEADER
 from ..refmatch import RefMatcher
@@ -273,7 +273,72 @@ def new_layout(ct, cd, rep, rule="new-layout"):
             rep.fail(rule, ct.mod.path.name, "Tdf.new", t.stmt or t.node, f"a new container is written with {nm} = {got}, expected {want}")
 
 
+def container_own_state(prog, rep, rule="container-own-state"):
+    """A new or copied file is independent of every other open file only if the container object keeps its table and its
+    entries per instance: a mutable object bound in the class body of Tdf / TdfEntry (a list, a dict, an instance of a package
+    class) that the methods use is ONE object for all files of the process.  Decided on the class bodies alone."""
+    n = 0
+    for cname in ("Tdf", "TdfEntry"):
+        c = prog.need_cls(cname, "basictdf")
+        for name, v in c.assigns.items():
+            mutable = isinstance(v, (ast.List, ast.Dict, ast.Set, ast.ListComp, ast.DictComp, ast.SetComp)) \
+                or (isinstance(v, ast.Call) and norm(v.func) in ("list", "dict", "set", "bytearray", "defaultdict", "collections.defaultdict", "deque", "collections.deque")) \
+                or (isinstance(v, ast.Call) and isinstance(v.func, ast.Name) and prog.resolve_class(c.module, v.func.id) is not None and not prog.is_enum(prog.resolve_class(c.module, v.func.id)))
+            if not mutable:
+                continue
+            n += 1
+            # rebound per instance on every construction / context entry?
+            rebound = any(isinstance(st, (ast.Assign, ast.AnnAssign)) and any(is_self_attr(t, name) for t in (st.targets if isinstance(st, ast.Assign) else [st.target]))
+                          for f in c.all_funcs() if f.name in ("__init__", "__enter__") for st in f.node.body)
+            used = [x for f in c.all_funcs() for x in walk_no_nested(f.node)
+                    if isinstance(x, ast.Attribute) and x.attr == name and isinstance(x.value, ast.Name) and x.value.id in ("self", "cls", cname)]
+            if used and not rebound:
+                rep.fail(rule, c.module.path.name, cname, used[0], f"class-level `{name} = {norm(v)[:50]}` is one object shared by every {cname} of the process and is used by its methods "
+                         f"(`{norm(used[0])}`): what one open file does to it shows up in every other (a copy is not independent of its original, a later new file inherits it)",
+                         construct=f"class {cname}: {name} = {norm(v)[:40]}")
+            else:
+                rep.ok(rule, f"{cname}.{name}: class-level object is {'rebound per instance' if rebound else 'not used by methods'}")
+    rep.ok(rule, f"Tdf / TdfEntry: {n} class-level mutable object(s); table and entries are per-instance state", nontrivial=True)
+
+
+def refusal_reaches_caller(prog, rep, rule="open-checks"):
+    """The refusals of Tdf.__init__ / __enter__ (missing file, wrong signature) reach the caller of every accessor only if nothing
+    on the way discards them: the context wrappers of tdfUtils and the two methods have no `return` / `break` / `continue` inside a
+    `finally` (which drops the exception in flight) and no handler that swallows the refusal."""
+    sites = []
+    utils = prog.modules.get("tdfUtils")
+    if utils is None:
+        raise AnalysisError("anchor vanished: tdfUtils.py")
+    for w in utils.functions.values():
+        sites.append((utils.path.name, w.qualname, w.node))
+    tdf = prog.need_cls("Tdf", "basictdf")
+    for mname in ("__init__", "__enter__"):
+        f = prog.need_method(tdf, mname)
+        sites.append((tdf.module.path.name, f"Tdf.{mname}", f.node))
+    n = 0
+    for mod, fq, node in sites:
+        n += 1
+        bad = None
+        for tr in [t for t in ast.walk(node) if isinstance(t, ast.Try)]:
+            for st in tr.finalbody:
+                for x in ast.walk(st):
+                    if isinstance(x, (ast.Return, ast.Break, ast.Continue)) and not any(isinstance(p_, (ast.FunctionDef, ast.Lambda)) and any(y is x for y in ast.walk(p_)) for p_ in ast.walk(st) if p_ is not st):
+                        bad = (x, f"`{norm(head(x))}` inside `finally` discards the exception in flight: a refused open (missing file, wrong signature) returns a value instead of raising")
+            for h in tr.handlers:
+                caught = [norm(x) for x in (h.type.elts if isinstance(h.type, ast.Tuple) else [h.type])] if h.type is not None else ["BaseException"]
+                broad = any(c_.split(".")[-1] in ("Exception", "BaseException", "OSError", "IOError", "FileNotFoundError") for c_ in caught)
+                if broad and not any(isinstance(x, ast.Raise) for x in ast.walk(h)):
+                    bad = (h, f"`except {', '.join(caught)}` swallows the refusal of an open that must fail")
+        if bad:
+            rep.fail(rule, mod, fq, bad[0], bad[1], construct=f"{fq} discards refusal")
+        else:
+            rep.ok(rule, f"{fq}: nothing between the open checks and the caller discards an exception")
+    rep.floor(rule + "/refusal-path", n, 5)
+
+
 def run(prog, rep):
+    rep.attempt(container_own_state, prog, rep)
+    rep.attempt(refusal_reaches_caller, prog, rep)
     ct = Container(prog)
     cd = Codecs(prog)
     cd.flag_errors(rep)
